@@ -1,6 +1,8 @@
 package checks
 
 import (
+	"sync"
+	"sort"
 	"bytes"
 	"encoding/json"
 	"fmt"
@@ -39,8 +41,75 @@ func pythonBin() string {
 	return ""
 }
 
-// pyValidate runs the independent Draft 2020-12 validator over a batch.
+// pyValidate runs the independent Draft 2020-12 validator over a batch: the jobs are grouped by document and
+// spread over up to 8 validator processes (each gets only the documents its jobs refer to).
 func pyValidate(jobs []pyJob, docs map[string]any) (map[string]pyResult, string, error) {
+	const workers = 8
+	if len(jobs) < 400 {
+		return pyValidateOne(jobs, docs)
+	}
+	byDoc := map[string][]pyJob{}
+	var keys []string
+	for _, j := range jobs {
+		if _, ok := byDoc[j.Doc]; !ok {
+			keys = append(keys, j.Doc)
+		}
+		byDoc[j.Doc] = append(byDoc[j.Doc], j)
+	}
+	sort.Strings(keys)
+	// greedy balancing: biggest groups first onto the lightest worker
+	sort.SliceStable(keys, func(a, b int) bool { return len(byDoc[keys[a]]) > len(byDoc[keys[b]]) })
+	parts := make([][]pyJob, workers)
+	for _, k := range keys {
+		w := 0
+		for i := range parts {
+			if len(parts[i]) < len(parts[w]) {
+				w = i
+			}
+		}
+		parts[w] = append(parts[w], byDoc[k]...)
+	}
+	type res struct {
+		m   map[string]pyResult
+		v   string
+		err error
+	}
+	out := make([]res, workers)
+	var wg sync.WaitGroup
+	for i := range parts {
+		if len(parts[i]) == 0 {
+			continue
+		}
+		wg.Add(1)
+		go func(i int) {
+			defer wg.Done()
+			sub := map[string]any{}
+			for _, j := range parts[i] {
+				if d, ok := docs[j.Doc]; ok {
+					sub[j.Doc] = d
+				}
+			}
+			out[i].m, out[i].v, out[i].err = pyValidateOne(parts[i], sub)
+		}(i)
+	}
+	wg.Wait()
+	all := map[string]pyResult{}
+	validator := ""
+	for _, r := range out {
+		if r.err != nil {
+			return nil, "", r.err
+		}
+		for k, v := range r.m {
+			all[k] = v
+		}
+		if r.v != "" {
+			validator = r.v
+		}
+	}
+	return all, validator, nil
+}
+
+func pyValidateOne(jobs []pyJob, docs map[string]any) (map[string]pyResult, string, error) {
 	py := pythonBin()
 	if py == "" {
 		return nil, "", fmt.Errorf("python3-vt (jsonschema) not found")
